@@ -37,8 +37,8 @@ def generate(tier, rng):
                     words.append(op + t)
                 else:
                     words.append(op)
-                    words.append(t)
-        toks = [("", w) for w in words]
+                    words.append(("Q", t) if r.below(3) == 0 else t)        # a quoted target word after a spaced operator (`2> "e.txt"`)
+        toks = [((r.choice(['"', "'"]), w[1]) if isinstance(w, tuple) else ("", w)) for w in words]
         cases.append(core.Case("redir", [core.toks(toks)], {"gen": "g"}))
     return cases
 
